@@ -438,3 +438,27 @@ func Time(t time.Time) *Node {
 	}
 	return GenTime(t)
 }
+
+// GenTimeOffset encodes the instant t as GeneralizedTime in a +hhmm zone.
+func GenTimeOffset(t time.Time, offMin int) *Node {
+	loc := time.FixedZone("", offMin*60)
+	lt := t.In(loc)
+	sign := '+'
+	if offMin < 0 {
+		sign = '-'
+		offMin = -offMin
+	}
+	return Str(TagGenTime, fmt.Sprintf("%s%c%02d%02d", lt.Format("20060102150405"), sign, offMin/60, offMin%60))
+}
+
+// TimeOffset is Time() in a +hhmm zone (offMin == 0 gives the Z form).
+func TimeOffset(t time.Time, offMin int) *Node {
+	if offMin == 0 {
+		return Time(t)
+	}
+	y := t.In(time.FixedZone("", offMin*60)).Year()
+	if y >= 1950 && y < 2050 {
+		return UTCTimeOffset(t, offMin)
+	}
+	return GenTimeOffset(t, offMin)
+}
